@@ -53,9 +53,18 @@ var (
 )
 
 func filterDependencies(n *component_definition.Property, metas []*component_definition.Meta) ([]*component_definition.Meta, error) {
-	//remove nil meta
+	//remove nil meta; a definition offered by more than one resolver (e.g. the type aware processor registered
+	//besides the default dependency processor) is still one candidate
+	seen := make(map[*component_definition.Meta]struct{}, len(metas))
 	result := fas.Filter(metas, func(m *component_definition.Meta) bool {
-		return m != nil
+		if m == nil {
+			return false
+		}
+		if _, dup := seen[m]; dup {
+			return false
+		}
+		seen[m] = struct{}{}
+		return true
 	})
 	if len(result) == 0 {
 		return nil, errors.Errorf("inject '%s' not found available components", n)
